@@ -3,9 +3,11 @@
    missing from some inputs, cancelling values, 980 inputs), clip / adjust / threshold, output naming. *)
 EXTENDS Merge, Json
 VARIABLES cfg, step
-Fields == <<"ds", "clip", "adjust", "thr", "out", "threads">>
+Fields == <<"ds", "clip", "adjust", "thr", "out", "threads", "style">>
 Dom(f) == CASE f = "ds" -> {1, 2, 3, 4} [] f = "clip" -> {0, 2} [] f = "adjust" -> {0, 1, 3} [] f = "thr" -> {0, 1, 4, 50}
             [] f = "out" -> {"bw", "bigWig", "bedGraph", "type-bigwig", "type-BedGraph"} [] f = "threads" -> {1, 4}
+            \* how the inputs are named: -b each, -l list file, the kent call `bigWigMerge in1 in2 .. out` with -clip= -adjust= -threshold=, kent -inList
+            [] f = "style" -> {"native", "list", "ucsc", "ucsc-list"}
 \* inputs: per bigWig a list of <<chrom, s, e, v>>
 Inputs(ds) == CASE ds = 1 -> << << <<1, 0, 3, 1>>, <<1, 5, 8, 2>>, <<2, 0, 2, 1>> >>, << <<1, 2, 6, 1>>, <<2, 1, 4, 3>> >> >>
                 [] ds = 2 -> << << <<1, 0, 2, 2>>, <<1, 4, 6, 1>> >>, << <<1, 1, 3, 1>>, <<2, 3, 5, 2>> >>, << <<2, 0, 1, 1>>, <<2, 4, 7, 1>> >> >>
@@ -17,5 +19,5 @@ Mult(ds) == IF ds = 4 THEN <<976, 4>> ELSE [i \in 1..Len(Inputs(ds)) |-> 1]
 Init == cfg = <<>> /\ step = 1
 Next == step <= Len(Fields) /\ \E v \in Dom(Fields[step]) : cfg' = Append(cfg, v) /\ step' = step + 1
 Done == step > Len(Fields)
-Emit == Done => PrintT(<<"REPLAY", ToJson([ds |-> cfg[1], inputs |-> Inputs(cfg[1]), mult |-> Mult(cfg[1]), clip |-> cfg[2], adjust |-> cfg[3], thr |-> cfg[4], out |-> cfg[5], threads |-> cfg[6]])>>)
+Emit == Done => PrintT(<<"REPLAY", ToJson([ds |-> cfg[1], inputs |-> Inputs(cfg[1]), mult |-> Mult(cfg[1]), clip |-> cfg[2], adjust |-> cfg[3], thr |-> cfg[4], out |-> cfg[5], threads |-> cfg[6], style |-> cfg[7]])>>)
 =============================================================================
